@@ -93,6 +93,10 @@ _CODES = None
 DEFINITE_FAIL_BASES = ("invoke", "boom", "ping", "ow", "batch", "unknown_member", "private_member", "gen", "blob", "daemon_ping")
 
 
+def muts_type(m1):
+    return next((m["v"] & 0xff for m in m1.get("mut") or [] if m["f"] == "type"), None)
+
+
 class PreHandshakeWorld(World):
     PROPERTY = "C08"
     NAME = "prehandshake"
@@ -102,7 +106,7 @@ class PreHandshakeWorld(World):
             "time (virtual clock)", "raw scripted peers"]
     PROBES = ["m1_not_connect", "m1_unknown_serializer", "m1_unknown_object", "m1_bad_shape", "validator_raised", "validator_odd_return",
               "pipelined_after_fail", "pipelined_after_ok", "connectfail_seen", "connectok_seen", "legit_ok", "m1_truncated",
-              "m1_mutated", "multiplex", "thread", "validator_bare_exception", "unregister_raced", "proxy_reconnects_to_withdrawn_object", "garbage_bad_prefix", "m1_stalled_until_commtimeout",
+              "m1_mutated", "multiplex", "thread", "validator_bare_exception", "unregister_raced", "proxy_reconnects_to_withdrawn_object", "m1_type_not_connect", "m1_type_undefined", "garbage_bad_prefix", "m1_stalled_until_commtimeout",
               "m1_connect_with_bad_body", "m1_not_connect_body_incomplete", "annotations_hook_fails", "wall_clock_stepped", "m1_in_slow_pieces"]
     RULE = ("plan = (server type, COMMTIMEOUT, validator behaviour, 1-3 raw peers each with first message spec + 0-3 pipelined message "
             "specs sent in one write or several, optional legitimate client); distinct = distinct interleaving digest; "
@@ -171,6 +175,16 @@ class PreHandshakeWorld(World):
                                      # (with an empty body the stream stays aligned for whatever is pipelined behind it)
                                      "mut": [{"f": "type", "v": typ}] + ([{"f": "payload", "v": "empty"}] if rng.random() < 0.7 else [])},
                               "pipe": [{"base": "invoke", "obj": "tok", "ser": 2, "arg": rng.randrange(1000), "seq": 1, "mut": []}],
+                              "split": rng.random() < 0.5, "gap": rng.choice([0, 0.01]), "start": rng.choice([0, 0.01, 0.2])})
+        if rng.random() < 0.1:
+            # peers whose first message is well-formed but of a type that is no CONNECT - one of the other defined types or one that
+            # protocol version 502 does not define at all - with a proper CONNECT and a call pipelined behind it
+            for typ in rng.sample([0, 7, 8, 9, 0x7f, 0x80, 0xfe, 0xff, 2, 3, 4, 5, 6], rng.randint(1, 2)):
+                peers.append({"m1": {"base": rng.choice(["connect", "invoke", "ping"]), "obj": "tok", "ser": rng.choice([1, 2, 3, 4]), "arg": 0,
+                                     "seq": 0, "hand": "valid",
+                                     "mut": [{"f": "type", "v": typ}]},
+                              "pipe": [{"base": "connect", "obj": "tok", "ser": rng.choice([1, 2, 3, 4]), "arg": 0, "seq": 0, "mut": [], "hand": "valid"},
+                                       {"base": "invoke", "obj": "tok", "ser": 2, "arg": rng.randrange(1000), "seq": 1, "mut": []}],
                               "split": rng.random() < 0.5, "gap": rng.choice([0, 0.01]), "start": rng.choice([0, 0.01, 0.2])})
         for p_ in peers:
             m_ = p_["m1"]
@@ -482,6 +496,8 @@ class PreHandshakeWorld(World):
                 ctx.probe("m1_not_connect_body_incomplete")
             if klass == "fail:bad-prefix":
                 ctx.probe("garbage_bad_prefix")
+            if klass == "fail:wrong-type":
+                ctx.probe("m1_type_not_connect" if muts_type(m1) in (2, 3, 4, 5, 6) else "m1_type_undefined")
             if klass == "fail:not-connect":
                 ctx.probe("m1_not_connect")
             elif klass == "fail:unknown-serializer":
@@ -538,6 +554,9 @@ class PreHandshakeWorld(World):
             return "fail:bad-header"
         if m1["base"] == "connect" and len(muts) == 1 and muts[0]["f"] == "ser" and muts[0]["v"] not in (1, 2, 3, 4):
             return "fail:unknown-serializer"
+        if len(muts) == 1 and muts[0]["f"] == "type" and (muts[0]["v"] & 0xff) != N.MSG_CONNECT and m1["base"] != "garbage":
+            # a well-formed message whose type is not CONNECT - defined or not: "anything else" than a connect request
+            return "fail:wrong-type"
         if not pristine:
             return "unknown"
         if m1["base"] in DEFINITE_FAIL_BASES:
